@@ -201,6 +201,13 @@ func loadSources(spec string) ([]projSrc, error) {
 		if err != nil {
 			return nil, err
 		}
+	case strings.HasPrefix(spec, "odd:"):
+		// odd:<seed>:<n> - well-formed skeletons whose slots hold unusual values (the grammar-aware family of the C01 fuzz stream)
+		parts := strings.Split(spec, ":")
+		rr := newRng(uint64(atoi(parts[1]))*7919 + 13)
+		for i, n := 0, atoi(parts[2]); i < n; i++ {
+			out = append(out, projSrc{name: fmt.Sprintf("odd:%06d", i), text: oddSkeleton(rr)})
+		}
 	case strings.HasPrefix(spec, "cells:"):
 		// the schema-feature matrix of MC_C17 (every rule x value at property / object level in TYPE / response / request
 		// position): documents on which the OpenAPI export often answers with an error value
